@@ -73,6 +73,25 @@ def run(ck):
                         DD[bad[0], bad[1]].tolist(), Dref[bad[0], bad[1]].tolist())
             if numpy.abs(HH - HH.T).max() != 0:
                 ck.fail("symmetry", "Hamiltonian not symmetric", inp)
+            # ---- the operators handed out stay the Frenkel ones after the aggregate transformed its internal copies ----------
+            if rep % 2 == 0 and n >= 2:
+                try:
+                    H_op = agg.get_Hamiltonian()
+                    D_op = agg.get_TransitionDipoleMoment()
+                    h0 = numpy.array(H_op.data).copy()
+                    d0 = numpy.array(D_op.data).copy()
+                    agg.diagonalize()
+                    h1 = numpy.array(agg.get_Hamiltonian().data)
+                    d1 = numpy.array(agg.get_TransitionDipoleMoment().data)
+                    if numpy.abs(d0 - Dref).max() > 1e-12 * max(1.0, numpy.abs(Dref).max()) or numpy.abs(d1 - d0).max() > 0 \
+                            or numpy.abs(numpy.array(D_op.data) - d0).max() > 0:
+                        ck.fail("dipole-operator:after-diagonalize", "the dipole operator handed out by the aggregate is not the Frenkel operator any more "
+                                "after Aggregate.diagonalize()", inp, float(numpy.abs(d1 - Dref).max()))
+                    if numpy.abs(h1 - h0).max() > 0 or numpy.abs(numpy.array(H_op.data) - h0).max() > 0:
+                        ck.fail("hamiltonian:after-diagonalize", "the Hamiltonian handed out by the aggregate changed after Aggregate.diagonalize()",
+                                inp, float(numpy.abs(h1 - h0).max()))
+                except Exception as e:
+                    ck.fail("raises:diagonalize", "diagonalize / operator access raised %r" % (e,), inp)
             nb = [sum(1 for s in ref_sigs if sum(s) == b) for b in range(mult + 1)]
             if list(agg.Nb) != nb or list(agg.get_Hamiltonian().rwa_indices) != [sum(nb[:b]) for b in range(mult + 1)]:
                 ck.fail("bands", "band sizes / RWA indices wrong", inp, [list(agg.Nb), list(agg.get_Hamiltonian().rwa_indices)], nb)
